@@ -44,6 +44,11 @@ if "block_nth" in script and b.get("block_if_nth"):
     total = sum(1 for l in open(os.path.join(W, "starts.log")))
     if total == script["block_nth"]:
         b = dict(b, block=b["block_if_nth"])
+if "fail_after_nth" in script:
+    # every process start after the n-th of the session fails without output
+    total = sum(1 for l in open(os.path.join(W, "starts.log")))
+    if total > script["fail_after_nth"]:
+        sys.exit(1)
 out = b.get("out")
 if out is None:
     out = "%s: iterations=1 runtime: %dus\n" % (bench or "B", 1000 * (int(inv) if inv.isdigit() else 1))
